@@ -45,7 +45,7 @@ Proof.
     assert (Pnow : 0 < now) by (apply Pn; discriminate).
     unfold deref in H. rewrite Gb in H. cbn [bind] in H.
     destruct (o_repeat ob && negb (kmem (b, o_seq ob) (canceling st))) eqn:Br.
-    + apply andb_true_iff in Br as [Rp _]. unfold o_repeat in Rp. apply Z.ltb_lt in Rp.
+    + apply andb_true_iff in Br as [Rp _]. unfold o_repeat in Rp. apply Z.leb_le in Rp.
       set (o' := mkT (o_seq ob) (now + o_iv ob) (o_iv ob)) in *.
       set (st1 := set_heap st (hput b o' (heap st))) in *.
       assert (I1 : Inv st1) by (apply inv_hput_det; auto).
